@@ -232,6 +232,8 @@ def validate_trace(ctx, module, trace, cfg=None, workers=NCPU, extra_env=None, e
     if expect_states and r["distinct"] != n:
         raise Infra("trace validation %s examined %d of %d events" % (module, r["distinct"], n))
     ctx.cov["trace_events"] += n
+    ctx.cov["states"] += r["distinct"]
+    ctx.cov["transitions"] += r["generated"]
     ctx.cov["traces_validated_against_impl"] += 1
     bad = bad_lines(r["out"])
     res = []
